@@ -34,5 +34,22 @@ CHECKS["C13"] = dict(
     technique="TLA+ registry model checked with TLC; TLC-enumerated histories replayed on the real SymbolGraph; H1 event traces validated against the trace spec",
 )
 
+CHECKS["C14"] = dict(
+    engine="SymbolGraph",
+    category="model_checking",
+    text=("SymbolGraph.tla: TLC checks that after p.works_for = c between two live instances the three derived relations are "
+          "in the graph and in the managed fields for every history (4 objects, 7/9 steps) with the registry purging removed "
+          "nodes, and refutes the StaleRelationIndex and PopIdOfNone switches (the 10-step recycled-index history). Every "
+          "phased build/destroy/sweep/rebuild history up to 11 steps and a sample of the unphased 8-step histories are replayed "
+          "on the real registry; after every assertion relations and fields are compared with the model's facts, a final "
+          "domain-less audit query checks that no instance grew a second node, and the H1 event trace of every replay is "
+          "validated against SymbolGraph_Trace.tla (index recycling, relation index, 'relation between live instances not "
+          "recorded', 'second node for a registered instance')."),
+    design_ref="DESIGN.md §4 C14",
+    note=("Trusted: TLC, CPython refcounting with gc disabled. Node-index reuse is forced by the histories; address reuse "
+          "cannot be forced from Python (the evidence counts how often it was observed)."),
+    technique="TLA+ registry model checked with TLC; TLC-enumerated prefix/suffix histories replayed on the real SymbolGraph; H1 event traces validated against the trace spec",
+)
+
 NOT_YET = "check not built yet in this build round (specified in DESIGN.md §4; will be claimed when its TLA+ module and binding exist)"
 NOT_APPLICABLE = {}
